@@ -332,7 +332,7 @@ func (x *Exec) applyModifies(post, pre *State, fr *Frame, env *Env, m *SExpr, wh
 	switch m.K {
 	case "star":
 		// s[*]: elements [off, off+len) of the backing store of s
-		sv := x.eval(env, m.X)
+		sv := x.asSlice(x.eval(env, m.X))
 		sl, ok := sv.T.Underlying().(*types.Slice)
 		if !ok {
 			x.abort(post, "modifies x[*] on non-slice")
@@ -444,6 +444,17 @@ func (x *Exec) invoke(st *State, fr *Frame, site ssa.Instruction, c *ssa.CallCom
 	rt := c.Value.Type()
 	tn := typeKey(rt)
 	x.atCallAsserts(st, fr, "("+tn+")."+m.Name(), nil, append([]Val{recv}, args...), where)
+	// devirtualisation: the dynamic type is known (the interface was made from a
+	// concrete value in this function or an inlined caller)
+	if dt := x.E.dynamicType(recv); dt != nil && isRefLike(dt) {
+		if sel := x.E.L.Prog.MethodSets.MethodSet(dt).Lookup(m.Pkg(), m.Name()); sel != nil {
+			if cf := x.E.L.Prog.MethodValue(sel); cf != nil {
+				crecv := Val{T: dt, L: []*Term{recv.L[1]}, Fn: recv.Fn, Bindings: recv.Bindings}
+				x.callFunc(st, fr, site, cf, nil, append([]Val{crecv}, args...), where, k)
+				return
+			}
+		}
+	}
 	if x.invokeIntrinsic(st, fr, site, tn, m.Name(), recv, args, where, k) {
 		return
 	}
@@ -523,7 +534,16 @@ func (x *Exec) builtin(st *State, fr *Frame, site ssa.Instruction, b *ssa.Builti
 	case "print", "println":
 		k(st, Val{})
 	case "recover":
-		k(st, x.freshVal("recover", b.Type().(*types.Signature).Results(), st))
+		rt := b.Type().(*types.Signature).Results().At(0).Type()
+		if x.ghostBool(st, "panicking").IsTrue() {
+			// recovering from the panic that is unwinding: a non-nil value
+			delete(st.ghost, "panicking")
+			v := x.freshVal("recovered", rt, st)
+			st.assume(Not(Eq(v.L[0], IntC(0))))
+			k(st, v)
+			return
+		}
+		k(st, Val{T: rt, L: []*Term{IntC(0), IntC(0)}})
 	case "delete":
 		x.mapDelete(st, fr, args[0], args[1])
 		k(st, Val{})
@@ -775,6 +795,18 @@ func (x *Exec) checkFrameAbs(st *State, fr *Frame, ref *Term, where string) {
 	x.oblige(st, "frame", "modifies-abs", Or(alts...), "abstract state written is fresh or covered by modifies abs(...)", where)
 }
 
+// asSlice views an array value (a reference to its backing store) as the slice of all its elements.
+func (x *Exec) asSlice(v Val) Val {
+	if v.T == nil {
+		return v
+	}
+	if at, ok := v.T.Underlying().(*types.Array); ok && len(v.L) == 1 {
+		n := x.idxConst(at.Len())
+		return Val{T: types.NewSlice(at.Elem()), L: []*Term{v.L[0], x.idxConst(0), n, n}}
+	}
+	return v
+}
+
 func (x *Exec) frameCheckRange(st *State, fr *Frame, elemKey string, s Val, where string) {
 	if x.dry || x.fc == nil || !x.fc.HasMod {
 		return
@@ -807,7 +839,7 @@ func (x *Exec) frameCheckElemCond(st *State, top *Frame, elemKey string, ref, lo
 		if m.K != "star" {
 			continue
 		}
-		sv := x.eval(env, m.X)
+		sv := x.asSlice(x.eval(env, m.X))
 		sl, ok := sv.T.Underlying().(*types.Slice)
 		if !ok || typeKey(sl.Elem()) != elemKey {
 			continue
